@@ -149,3 +149,29 @@ reg("C13", "tsx", "Every design connecting 1-3 writers and 1-3 readers through C
     "of the running pair is exchanged in both directions.",
     "bounded-exhaustive design enumeration + exhaustive input enumeration on the elaborated design",
     note="Trusts pysim; 1-bit payloads.")
+
+ENGINES.append({"name": "comb", "path": "/verif/vlib/comb.py",
+                "kind_free_text": "single-state special case of tsx: a small circuit built by the real library code is evaluated by "
+                "pysim on every valuation of its free inputs (every width/size of a bounded grid) and compared with a reference "
+                "function written from the documentation; sampled valuations re-evaluated through the public simulator API",
+                "serves_properties": []})
+COMB_NOTE = ("Trusts Amaranth's pysim and the Python reference definitions taken from the docstrings; sizes are bounded as listed in "
+             "the evidence; outputs the documentation leaves undefined are not compared.")
+
+reg("C36", "comb", "Every bit helper of the statement (popcount, count_leading/trailing_zeros, cyclic_mask, extract/clear_lowest_set_bit, "
+    "the four mask_* helpers, mod_incr, mod_add, sum/or/and/min/max_value over flat, list, dict and View bundles, mux and switch_value "
+    "on plain, signed and View operands) for every width 1-6 (9 thorough), modulus 1-9 (17), on every input valuation.",
+    "exhaustive input enumeration on the elaborated circuit for every width of a bounded grid", note=COMB_NOTE)
+reg("C37", "comb", "shift_left/right, rotate_left/right, generic_shift_* and the four vector variants (plain, struct-view, array-view "
+    "elements; explicit and default placeholder) for every width 1-6 (9), vector length 1-4 (5), every value x offset in 0..width x "
+    "placeholder.",
+    "exhaustive input enumeration on the elaborated circuit for every width of a bounded grid", note=COMB_NOTE)
+reg("C38", "comb", "one_hot_mux/OneHotMux (priority x default x create), MultiPriorityEncoder, RingMultiPriorityEncoder (all first/last), "
+    "StableSelectingNetwork, the six coding classes (+ Gray round trip) and OneHotSwitchDynamic for every size of a bounded grid on "
+    "every input valuation.",
+    "exhaustive input enumeration on the elaborated circuit for every size of a bounded grid", note=COMB_NOTE)
+reg("C39", "tsx", "Complete reachability analysis of OneHotRoundRobin (count 1-5, 6 thorough) and RoundRobin (count 1-4, 5 thorough) in "
+    "product with a monitor holding one wait counter per requester, every request vector in every state: valid iff requested, one-hot "
+    "grant among the requesters, no requester waits count cycles.",
+    "explicit-state BFS of the real elaborated circuit x wait-counter monitor",
+    note=E1_NOTE + " 'grants none' is read as valid low; RoundRobin's registered outputs are compared across the clock edge.")
